@@ -19,6 +19,13 @@ import (
 
 // === [ Identifiers ] =========================================================
 
+// isDecimal reports whether s consists only of decimal digits; unlike
+// strconv.ParseInt it does not accept a sign (the identifiers -0 and +1 are
+// names, not IDs).
+func isDecimal(s string) bool {
+	return len(s) > 0 && strings.Trim(s, "0123456789") == ""
+}
+
 // --- [ Global identifiers ] --------------------------------------------------
 
 // globalIdent returns the identifier (without '@' prefix) of the given global
@@ -32,7 +39,7 @@ func globalIdent(old ast.GlobalIdent) ir.GlobalIdent {
 	ident = ident[len(prefix):]
 	// positive integer -> ID
 	// everything else (including negative integer) -> Name
-	if id, err := strconv.ParseInt(ident, 10, 64); err == nil && id >= 0 {
+	if id, err := strconv.ParseInt(ident, 10, 64); err == nil && isDecimal(ident) {
 		return ir.GlobalIdent{GlobalID: id}
 	}
 	// Unquote after trying to parse as ID, since @"42" is recognized as named
@@ -54,7 +61,7 @@ func localIdent(old ast.LocalIdent) ir.LocalIdent {
 	ident = ident[len(prefix):]
 	// positive integer -> ID
 	// everything else (including negative integer) -> Name
-	if id, err := strconv.ParseInt(ident, 10, 64); err == nil && id >= 0 {
+	if id, err := strconv.ParseInt(ident, 10, 64); err == nil && isDecimal(ident) {
 		return ir.LocalIdent{LocalID: id}
 	}
 	// Unquote after trying to parse as ID, since %"42" is recognized as named
@@ -76,7 +83,7 @@ func labelIdent(old ast.LabelIdent) ir.LocalIdent {
 	ident = ident[:len(ident)-len(suffix)]
 	// positive integer -> ID
 	// everything else (including negative integer) -> Name
-	if id, err := strconv.ParseInt(ident, 10, 64); err == nil && id >= 0 {
+	if id, err := strconv.ParseInt(ident, 10, 64); err == nil && isDecimal(ident) {
 		return ir.LocalIdent{LocalID: id}
 	}
 	// Unquote after trying to parse as ID, since %"42" is recognized as named
